@@ -20,7 +20,9 @@ ELEMS = ([('lre', pf, u) for (pf, u) in [(None, None), (None, 'u1'), ('p', 'u1')
 ATTRS = ([None]
          + [('attr', nm, ns) for nm in ('a', 'p:a', 'q:a') for ns in (None, '', 'u1', 'u2')]
          + [('attr', 'xml:lang', None), ('lreattr', 'p:b'), ('lreattr', 'b'), ('aset',),
-            ('attr2', 'p:a', 'u1', 'q:a', 'u1'), ('attr2', 'a', 'u2', 'x:a', None), ('attr2', 'p:a', 'u2', 'p:a', None)])
+            ('attr2', 'p:a', 'u1', 'q:a', 'u1'), ('attr2', 'a', 'u2', 'x:a', None), ('attr2', 'p:a', 'u2', 'p:a', None),
+            # several literal attributes in different namespaces on one literal result element: each of their prefixes is needed
+            ('lreattr2', 'p:b', 'q:c'), ('lreattr2', 'q:c', 'p:b'), ('lreattr2', 'b', 'q:c', 'p:d')])
 
 
 def esc(v):
@@ -46,14 +48,14 @@ def gen_elem(e, attrs, inner_fn, scope=None):
     for a in attrs:
         if a is None or a[0] == 'aset':
             continue
-        if a[0] == 'lreattr':
+        if a[0] in ('lreattr', 'lreattr2'):
             if k != 'lre':
                 return None
-            nm = a[1]
-            lre_attr_text += ' %s="L"' % nm
-            ref_attrs[(inner_scope[nm.split(':')[0]] if ':' in nm else '', nm.split(':')[-1])] = 'L'
+            for j, nm in enumerate(a[1:]):
+                lre_attr_text += ' %s="L%s"' % (nm, j or '')
+                ref_attrs[(inner_scope[nm.split(':')[0]] if ':' in nm else '', nm.split(':')[-1])] = 'L%s' % (j or '')
     for a in attrs:
-        if a is None or a[0] in ('aset', 'lreattr'):
+        if a is None or a[0] in ('aset', 'lreattr', 'lreattr2'):
             continue
         specs = [(a[1], a[2])] if a[0] == 'attr' else [(a[1], a[2]), (a[3], a[4])]
         for i, (nm, ns) in enumerate(specs):
